@@ -209,3 +209,10 @@ func LoopErrors(p *load.Program, run *report.Run) {
 	lints.LoopErrOverwrite(p, run, []string{"sha2pc", "circuit", "ot", "p2p", ""})
 	run.Floor("loop-error-examples", 2)
 }
+
+// C12guards: the operand extractions of the constant-folding built-ins read the operand they report.
+func C12guards(p *load.Program, run *report.Run) {
+	run.Rule("guard-names-what-it-tests", "in compiler/ast, a checked type assertion `v, ok := R.….(T)` followed by `if !ok { … }` whose body names another variable of R's type and not R itself is a copied block that still reads the other operand (wideMulEval multiplied a by a); every such extraction is counted")
+	lints.GuardNames(p, run, []string{"compiler/ast"})
+	run.Floor("checked-extractions", 5)
+}
